@@ -698,6 +698,9 @@ impl Open for VirtualSystem {
     }
 
     fn opendir(&self, path: &CStr) -> Result<impl Dir + use<>> {
+        if !self.current_process().has_unused_fd() {
+            return Err(Errno::EMFILE);
+        }
         let (file, is_readable, is_writable) = self.resolve_file(
             path,
             OfdAccess::ReadOnly,
